@@ -95,6 +95,10 @@ IDENTS = ["alpha", "beta", "gamma", "delta", "foo", "foo2", "Foo", "_x"]
 
 # expression pattern families: (name, meta, minus, plus, holes) ; {x} {y} expression metavars, {f} identifier metavar, {...} dots
 EXPR_FAMILIES = [
+    ("unwrap-lone-mv", "var x expression", "traced(x)", "x"),
+    ("dup-around-dots", "var x expression", "check(..., want(x), ..., got(x))", "checkSame(x)"),
+    ("dup-binary-same", "var x expression", "x - x", "zero"),
+    ("dup-method", "var x expression", "x.Equal(x)", "always"),
     ("call-1", "var x expression", "foo(x)", "bar(x)"),
     ("call-swap", "var x, y expression", "foo(x, y)", "foo(y, x)"),
     ("call-dup", "var x expression", "foo(x, x)", "once(x)"),
@@ -144,6 +148,16 @@ SLOTS = [
     ("label", "func h() {{ L: for {{ {e}; break L }} }}"),
     ("binary-operand", "func h() {{ _ = 1 + cnt({e}) }}"),
     ("struct-tag-neighbour", "type S struct {{ A int `json:\"a\"` }}\nfunc h() {{ {e} }}"),
+    # the instance IS the call of a go/defer statement (a slot typed *ast.CallExpr)
+    ("go-call", "func h() {{ go {e} }}"),
+    ("defer-call", "func h() {{ defer {e} }}"),
+    # the instance is the left-most part of a bigger expression that starts at the same position
+    ("left-of-binary", "func h() {{ _ = {e} - tail0 }}"),
+    ("left-of-binary-same", "func h() {{ _ = {e} == {e} }}"),
+    ("left-of-selector", "func h() {{ {e}.M(1) }}"),
+    ("left-of-index", "func h() {{ _ = {e}[0] }}"),
+    ("left-of-call", "func h() {{ {e}(7) }}"),
+    ("left-of-assert", "func h() {{ _ = {e}.(T) }}"),
 ]
 
 
@@ -158,9 +172,16 @@ def instantiate(rng, pat, binding=None):
     out = re.sub(r"\bx\b", lambda m: "(" + mv("x", FILLERS) + ")" if False else mv("x", FILLERS), out)
     out = re.sub(r"\by\b", lambda m: mv("y", FILLERS), out)
     out = re.sub(r"\bf\b(?=\()", lambda m: mv("f", IDENTS), out)
+    # elements of the pattern that carry a metavariable, e.g. want(x): usable as decoys with another binding
+    carriers = re.findall(r"\b\w+\((?:x|y)\)", pat)
     def dots(m):
         n = rng.choice([0, 1, 1, 2, 3])
-        return ", ".join(rng.choice(FILLERS) for _ in range(n))
+        items = [rng.choice(FILLERS) for _ in range(n)]
+        if carriers and rng.random() < 0.6:
+            c = rng.choice(carriers)
+            other = rng.choice([f for f in FILLERS if f != binding.get("x")])
+            items.insert(rng.randint(0, len(items)), re.sub(r"\((?:x|y)\)", "(" + other.replace("\\", "\\\\") + ")", c))
+        return ", ".join(items)
     # '...' inside a block stands for statements
     out = re.sub(r"\{ \.\.\. \}", lambda m: "{ " + "; ".join(rng.choice(["s1()", "s2(3)", "v = 4"]) for _ in range(rng.choice([0, 1, 2]))) + " }", out)
     out = re.sub(r"\.\.\.(?!\))|\.\.\.(?=\))", lambda m: dots(m) if True else "", out) if "x..." not in pat else out
@@ -212,3 +233,78 @@ def grammar_case(rng, k):
         planted.append({"slot": sname, "kind": kind, "code": code})
     src = "package p\n\n" + "\n\n".join(decls) + "\n"
     return ("grammar:%s#%d" % (name, k), patch.encode(), src.encode(), {"family": name, "planted": planted})
+
+
+# ---------------------------------------------------------------- statement-list patterns
+# (name, meta, patch body lines)  -- lines already carry their '-', '+' or ' ' prefix
+STMT_FAMILIES = [
+    ("grow", "", ["-foo()", "+bar()", "+baz()"]),
+    ("grow-mv", "var x expression", ["-foo(x)", "+pre(x)", "+foo(x)", "+post(x)"]),
+    ("shrink", "", ["-first()", "-second()", "+both()"]),
+    ("elide-middle", "var x identifier", ["-x := mk()", " ...", "-use(x)", "+use(mk())"]),
+    ("lock-unlock", "var x expression", ["-lock(x)", "+acquire(x)", " ...", "-unlock(x)", "+release(x)"]),
+    ("ctx-then-change", "var x expression", [" before(x)", "-foo(x)", "+bar(x)", "+baz()"]),
+    ("if-block", "", [" if cond {", "   ...", "-  foo()", "+  bar()", "+  baz()", " }"]),
+    ("delete", "", ["-foo()", "-bar()"]) ,
+]
+STMT_POOL = ["s1()", "s2(3)", "v = 4", "keep1()", "keep2()", "log(\"x\")", "i++", "if q { w() }", "for range ch { z() }", "go g()", "defer d()",
+             "{ inner() }", "x1 := 5; _ = x1", "return"]
+
+
+def stmt_case(rng, k):
+    name, meta, lines = STMT_FAMILIES[k % len(STMT_FAMILIES)]
+    patch = "@@\n%s\n@@\n%s\n" % (meta, "\n".join(lines)) if meta else "@@\n@@\n%s\n" % "\n".join(lines)
+    minus = [l[1:].strip() for l in lines if l[:1] in "- "]
+    funcs = []
+    for j in range(rng.randint(2, 5)):
+        filler = rng.choice(FILLERS[:6] + ["p", "q.r"])
+        inst = []
+        for m in minus:
+            if m == "...":
+                inst += [rng.choice(STMT_POOL[:9]) for _ in range(rng.randint(0, 3))]
+            elif m in ("if cond {", "}"):
+                inst.append(m)
+            else:
+                t = re.sub(r"\bx\b", filler if "identifier" not in meta else rng.choice(["tmp", "val"]), m)
+                if rng.random() < 0.25:
+                    mm = mutate_go(rng, t)
+                    if mm:
+                        t = mm[1]
+                inst.append(t)
+        before = [rng.choice(STMT_POOL[:11]) for _ in range(rng.randint(0, 3))]
+        # a decoy: the first pattern statement with another binding, before the real instance
+        if "x" in meta and rng.random() < 0.5:
+            first = next((m for m in minus if re.search(r"\bx\b", m)), None)
+            if first and "identifier" not in meta:
+                before.append(re.sub(r"\bx\b", rng.choice(["decoy1", "d.e"]), first))
+        after = [rng.choice(STMT_POOL) for _ in range(rng.randint(0, 3))]
+        body = before + inst + after
+        wrap = rng.choice(["func h%d() {\n\t%s\n}", "func h%d() {\n\tif ok {\n\t%s\n\t}\n}", "func h%d() {\n\tswitch v {\n\tcase 1:\n\t%s\n\t}\n}",
+                           "func h%d() {\n\tselect {\n\tcase <-c:\n\t%s\n\t}\n}", "func h%d() {\n\tfor {\n\t%s\n\t}\n}",
+                           "func h%d() {\n\tfn := func() {\n\t%s\n\t}\n\tfn()\n}", "func h%d() {\n\t{\n\t%s\n\t}\n\t%s\n}"])
+        text = "\n\t".join(body)
+        funcs.append(wrap % ((j, text, text) if wrap.count("%s") == 2 else (j, text)))
+    src = "package p\n\n" + "\n\n".join(funcs) + "\n"
+    return ("stmts:%s#%d" % (name, k), patch.encode(), src.encode(), {"family": name})
+
+
+# ---------------------------------------------------------------- several changes in one patch
+CHAINS = [
+    ["@@\nvar x, y expression\n@@\n-oldPair(x, y)\n+newPair(norm(x), norm(y))\n", "@@\nvar v expression\n@@\n-norm(v)\n+v\n"],
+    ["@@\nvar x expression\n@@\n-f0(x)\n+f1(x, x)\n", "@@\nvar a, b expression\n@@\n-f1(a, b)\n+f2(b)\n", "@@\n@@\n-never()\n+ever()\n"],
+    ["@@\n@@\n-foo()\n+bar()\n+baz()\n", "@@\n@@\n-baz()\n+qux()\n"],
+    ["@@\nvar x expression\n@@\n-wrap(x)\n+x\n", "@@\nvar x expression\n@@\n-wrap(x)\n+x\n"],
+    ["@@\nvar f identifier\n@@\n-f(old)\n+f(mid)\n", "@@\nvar g identifier\n@@\n-g(mid)\n+g(new1, new2)\n"],
+]
+
+
+def chain_case(rng, k):
+    ch = CHAINS[k % len(CHAINS)]
+    patch = "\n".join(ch)
+    stm = []
+    for j in range(rng.randint(2, 5)):
+        a, b = rng.choice(FILLERS[:8]), rng.choice(FILLERS[:8])
+        stm.append(rng.choice(["_ = oldPair(%s, %s)" % (a, b), "_ = f0(%s)" % a, "foo()", "_ = wrap(wrap(%s))" % a, "alpha(old)", "beta(old)",
+                               "_ = norm(%s)" % b, "_ = f1(%s, %s)" % (a, b), "baz()", "_ = oldPair(norm(%s), %s)" % (a, b)]))
+    src = "package p\n\nfunc h() {\n\t" + "\n\t".join(stm) + "\n}\n"
+    return ("chain#%d" % k, patch.encode(), src.encode(), {"family": "chain%d" % (k % len(CHAINS))})
